@@ -171,6 +171,8 @@ def class_name(c):
 
 def resolve_base(cls, bnode):
     """Resolve a base-class expression of a repo class to ClassInfo | builtin name."""
+    if isinstance(bnode, ast.Subscript):      # generic base `Base[T]`: the class is `Base`
+        bnode = bnode.value
     src = ast.unparse(bnode)
     if src in BUILTIN_EXC_BASES:
         return src
@@ -243,6 +245,7 @@ class Run:
         self.solver.set('timeout', timeout_ms)
         self._nlits = 0
         self.calls = 0
+        self.bounded = 0               # >0: bounded model-query mode (loops unrolled, collection sizes <= bounded)
         self.inlined = set()           # (module, qualname) of real functions executed in place
         self.assumed = set()           # textual assumptions recorded by models
         self.instantiated = set()
@@ -1230,10 +1233,25 @@ class Interp:
                 # NOTE: a PathEnd/Unsupported passing through also runs this; harmless.
                 self.block(fr, s.finalbody)
 
+    def concretize_len(self, lst):
+        """bounded mode: fork over the concrete length 0..bounded of an array-list."""
+        run = self.run
+        n = z3.simplify(lst.n) if z3.is_expr(lst.n) else lst.n
+        if isinstance(n, int) or z3.is_int_value(n):
+            return
+        for v in range(run.bounded + 1):
+            if run.choose(lst.n == v):
+                lst.n = z3.IntVal(v)
+                return
+        raise PathEnd()
+
     def s_For(self, fr, s):
         from . import models
         it = self.eval(fr, s.iter)
         conc = models.try_iterate(self, it)
+        if conc is None and self.run.bounded and isinstance(it, SymList):
+            self.concretize_len(it)
+            conc = models.try_iterate(self, it)
         if conc is not None:
             if len(conc) > self.MAX_UNROLL:
                 raise Unsupported('loop over %d concrete items' % len(conc))
@@ -1254,6 +1272,20 @@ class Interp:
 
     def s_While(self, fr, s):
         spec = self.loop_spec(fr, s)
+        if self.run.bounded:
+            n = 0
+            while self.truth(self.eval(fr, s.test)):
+                n += 1
+                if n > 2 * self.run.bounded + 2:
+                    raise PathEnd()
+                try:
+                    self.block(fr, s.body)
+                except PyBreak:
+                    return
+                except PyContinue:
+                    continue
+            self.block(fr, s.orelse)
+            return
         if spec is None:
             # no contract: unroll while the guard is decided concretely
             n = 0
